@@ -18,6 +18,7 @@ to which step.  Equality, completion and clean end of input are judged by TLC.""
 import fcntl
 import json
 import multiprocessing
+from . import core as _core
 import os
 import re
 import select
@@ -457,8 +458,7 @@ def run_histories(ctx, jobs, nproc=14, tag="h", stop_after=3):
              os.path.join(ctx.scratch, "%s-trace%d.ndjson" % (tag, n)), stop_after) for n, part in enumerate(parts)]
     if nproc == 1:
         return [_hist_worker(args[0])]
-    with multiprocessing.Pool(nproc) as pool:
-        return pool.map(_hist_worker, args)
+    return _core.pool_map(_hist_worker, args, nproc)
 
 
 # ---- validation ------------------------------------------------------------------------------------------------
@@ -726,5 +726,4 @@ def run_cases(ctx, cases, nproc=14, tag="c", per_proc=150, stop_after=4, with_cl
             for n, part in enumerate(parts)]
     if nproc == 1:
         return [_case_worker(args[0])]
-    with multiprocessing.Pool(nproc) as pool:
-        return pool.map(_case_worker, args)
+    return _core.pool_map(_case_worker, args, nproc)
